@@ -15,7 +15,9 @@
 //   every untouched value; in the raw file the original comment lines, section headers and entries appear in their
 //   original order with the current values.
 // part "csv":
-//   cols how | n1 n2 ..   column names (identifiers, made unique), how 0 columns(Array), 1 columns("a,b"), 2 constructor
+//   cols how cfg | n1 n2 ..   column names (identifiers, made unique), how 0 columns(Array), 1 columns("a,b"), 2 constructor;
+//                         cfg (only with >= 2 columns, else the reader cannot recognise it from the header): 0 default ',' and '.',
+//                         1 setSeparator(';') + setDecimal(',') (what the reader assumes for a ';' header), 2 setSeparator(TAB)
 //   mode k                following rows: 0 cell by cell with <<, 1 as one array Var
 //   ci x | cd bits | cs | text       int / double (bits mapped into {0} U [2^-962, 2^963)) / string cell
 #include "common/vfrc.h"
@@ -385,6 +387,7 @@ static std::string csv_string(const std::string& s)
 struct Table {
 	std::vector<std::string> cols;
 	int how = 0;
+	int cfg = 0;
 	std::vector<std::vector<Cell>> rows;
 	std::vector<int> rowmode;
 };
@@ -408,6 +411,13 @@ static Table csv_table(const vf::Case& c)
 		}
 	if (t.cols.empty())
 		t.cols.push_back("c0");
+	for (const vf::Op& o : c.ops)
+		if (o.name == "cols") {
+			t.cfg = t.cols.size() >= 2 ? (int)(((o.i(1) % 3) + 3) % 3) : 0;
+			break;
+		}
+	if (t.cfg && t.how == 2)
+		t.how = 0; // the constructor with column names writes the header before anything can be configured
 	int mode = 0;
 	std::vector<Cell> row;
 	for (const vf::Op& o : c.ops) {
@@ -427,6 +437,8 @@ static Table csv_table(const vf::Case& c)
 		else if (o.name == "cs") {
 			cell.type = 2;
 			cell.s = csv_string(o.str(0));
+			if (t.cfg == 1 && !cell.s.empty() && cell.s[0] == ',')
+				cell.s[0] = 'c'; // with ',' as decimal mark a leading comma looks numeric to the reader
 		}
 		else
 			continue;
@@ -505,6 +517,12 @@ static void run_csv(const vf::Case& c)
 			f = new TabularDataFile(AS(path), names);
 		else {
 			f = new TabularDataFile(AS(path));
+			if (t.cfg == 1) {
+				f->setSeparator(';');
+				f->setDecimal(',');
+			}
+			else if (t.cfg == 2)
+				f->setSeparator('\t');
 			if (t.how == 0)
 				f->columns(names);
 			else
@@ -806,7 +824,7 @@ static Gen<vf::Case> csvgen()
 	return gen::exec([cellgen]() {
 		vf::Case c;
 		int ncols = *gen::elementOf(std::vector<int>{1, 1, 2, 2, 3, 3, 4, 5, 6, 7, 8, 8});
-		vf::Op cols("cols", {*vf::irange<int>(0, 2)});
+		vf::Op cols("cols", {*vf::irange<int>(0, 2), *gen::elementOf(std::vector<int>{0, 0, 0, 1, 1, 2})});
 		for (int i = 0; i < ncols; i++)
 			cols.s.push_back(*identgen());
 		c.add(cols);
@@ -825,13 +843,16 @@ static void classify_csv(const vf::Case& c)
 {
 	auto& st = vf::stats();
 	Table t = csv_table(c);
-	bool quote = false, sep = false, semi = false, num = false, empty = false, spaces = false, arr = false;
+	bool quote = false, sep = false, semi = false, num = false, empty = false, spaces = false, arr = false, frac = false;
+	st.cls(t.cfg == 0 ? "csv.config.comma_and_dot(default)" : t.cfg == 1 ? "csv.config.semicolon_and_decimal_comma" : "csv.config.tab_separator");
 	for (size_t r = 0; r < t.rows.size(); r++) {
 		if (t.rowmode[r])
 			arr = true;
 		for (auto& cell : t.rows[r]) {
 			if (cell.type != 2) {
 				num = true;
+				if (cell.type == 1 && cell.d != std::floor(cell.d))
+					frac = true;
 				continue;
 			}
 			if (cell.s.empty())
@@ -858,6 +879,12 @@ static void classify_csv(const vf::Case& c)
 		st.cls("csv.leading_or_trailing_blank");
 	if (arr)
 		st.cls("csv.row_as_array_var");
+	if (t.cfg == 1 && sep)
+		st.cls("csv.config.semicolon_and_decimal_comma.string_cell_with_comma");
+	if (t.cfg == 1 && frac)
+		st.cls("csv.config.semicolon_and_decimal_comma.fractional_number");
+	if (t.cfg == 1 && semi)
+		st.cls("csv.config.semicolon_and_decimal_comma.string_cell_with_semicolon");
 	if (t.rows.empty())
 		st.cls("csv.no_rows");
 	if (t.cols.size() == 1)
